@@ -686,4 +686,135 @@ theorem union_cover (S : List Sample) (hS : SSorted S) (cs : List RChunk)
             rw [← hnew]
             exact (mem_dropLt_sorted hcsort).mpr ⟨hy, by omega⟩
 
+/-! ### arbitrary query ranges: what the union of sorted cuts contains -/
+
+/-- two strictly time-sorted lists with the same elements are equal -/
+theorem ssorted_ext : ∀ {l1 l2 : List Sample}, SSorted l1 → SSorted l2 → (∀ x, x ∈ l1 ↔ x ∈ l2) → l1 = l2
+  | [], [], _, _, _ => rfl
+  | [], b :: l2, _, _, h => by have := (h b).mpr (by simp); simp at this
+  | a :: l1, [], _, _, h => by have := (h a).mp (by simp); simp at this
+  | a :: l1, b :: l2, h1, h2, h => by
+    have p1 := List.pairwise_cons.mp h1
+    have p2 := List.pairwise_cons.mp h2
+    have hab : a = b := by
+      have ha : a ∈ b :: l2 := (h a).mp (by simp)
+      have hb : b ∈ a :: l1 := (h b).mpr (by simp)
+      rcases List.mem_cons.mp ha with rfl | ha
+      · rfl
+      · rcases List.mem_cons.mp hb with rfl | hb
+        · rfl
+        · have := p2.1 a ha
+          have := p1.1 b hb
+          omega
+    subst hab
+    congr 1
+    apply ssorted_ext p1.2 p2.2
+    intro x
+    constructor
+    · intro hx
+      have : x ∈ a :: l2 := (h x).mp (by simp [hx])
+      rcases List.mem_cons.mp this with rfl | hx2
+      · have := p1.1 x hx; omega
+      · exact hx2
+    · intro hx
+      have : x ∈ a :: l1 := (h x).mpr (by simp [hx])
+      rcases List.mem_cons.mp this with rfl | hx1
+      · have := p2.1 x hx; omega
+      · exact hx1
+
+/-- **What the union of sorted cuts holds**: exactly the samples of the cuts after `l` — no
+    coverage assumption, any overlaps. -/
+theorem mem_unionFrom_cuts (S : List Sample) (hS : SSorted S) : ∀ (cs : List RChunk) (l : Int),
+    (∀ c ∈ cs, c.samples ≠ [] ∧ c.samples <:+: S) → cs.Pairwise (fun a b => a.mint ≤ b.mint) →
+    ∀ x, x ∈ unionFrom l (cs.map (·.samples)) ↔ (∃ c ∈ cs, x ∈ c.samples) ∧ l < x.t := by
+  intro cs
+  induction cs with
+  | nil => intro l _ _ x; simp [unionFrom]
+  | cons c0 cs ih =>
+    intro l hcut hsorted x
+    obtain ⟨hc0ne, hc0inf⟩ := hcut c0 (by simp)
+    have hc0s : SSorted c0.samples := List.Pairwise.sublist hc0inf.sublist hS
+    have hp := List.pairwise_cons.mp hsorted
+    have hcut' : ∀ c ∈ cs, c.samples ≠ [] ∧ c.samples <:+: S := fun c hc => hcut c (by simp [hc])
+    simp only [List.map_cons, unionFrom]
+    cases hnew : dropLt (l + 1) c0.samples with
+    | nil =>
+      simp only
+      rw [ih l hcut' hp.2 x]
+      constructor
+      · rintro ⟨⟨c, hc, hxc⟩, hl⟩; exact ⟨⟨c, by simp [hc], hxc⟩, hl⟩
+      · rintro ⟨⟨c, hc, hxc⟩, hl⟩
+        rcases List.mem_cons.mp hc with rfl | hc
+        · have := all_lt_of_dropLt_nil hnew x hxc; omega
+        · exact ⟨⟨c, hc, hxc⟩, hl⟩
+    | cons y r =>
+      simp only
+      have hsuf : (y :: r) <:+ c0.samples := by rw [← hnew]; exact dropLt_suffix _ _
+      have hys : SSorted (y :: r) := List.Pairwise.sublist hsuf.sublist hc0s
+      have hy1 : l + 1 ≤ y.t := head_dropLt_ge (by rw [hnew]; rfl)
+      -- lastOf y r is the end of the cut c0
+      obtain ⟨z, cr, hz⟩ : ∃ z cr, c0.samples = z :: cr := by
+        cases hcs : c0.samples with
+        | nil => exact absurd hcs hc0ne
+        | cons z cr => exact ⟨z, cr, rfl⟩
+      have hlast : lastOf y r = c0.maxt := by
+        rw [(mint_of_cons hz).2]
+        rw [hz] at hsuf
+        exact lastOf_suffix hsuf
+      rw [List.mem_append, ih (lastOf y r) hcut' hp.2 x]
+      constructor
+      · rintro (hx | ⟨⟨c, hc, hxc⟩, hl⟩)
+        · have hxc0 : x ∈ c0.samples := hsuf.subset hx
+          have := (mem_dropLt_sorted hc0s (k := l + 1)).mp (by rw [hnew]; exact hx)
+          exact ⟨⟨c0, by simp, hxc0⟩, by omega⟩
+        · have := le_lastOf hys y (by simp)
+          exact ⟨⟨c, by simp [hc], hxc⟩, by omega⟩
+      · rintro ⟨⟨c, hc, hxc⟩, hl⟩
+        have hin0 : x ∈ c0.samples → x ∈ y :: r := by
+          intro h0
+          rw [← hnew]
+          exact (mem_dropLt_sorted hc0s).mpr ⟨h0, by omega⟩
+        rcases List.mem_cons.mp hc with rfl | hc
+        · exact Or.inl (hin0 hxc)
+        · by_cases hgt : lastOf y r < x.t
+          · exact Or.inr ⟨⟨c, hc, hxc⟩, hgt⟩
+          · -- c0.mint ≤ c.mint ≤ x.t ≤ c0.maxt: x lies inside the cut c0
+            left
+            apply hin0
+            have hle := hp.1 c hc
+            have hxb := (mem_chunk_bounds hS (hcut' c hc).2 hxc).1
+            have hzm := (mint_of_cons hz).1
+            have hlastmem : (z :: cr).getLast? = some (cr.getLast?.getD z) := getLast?_cons_getD cr z
+            have hmax := (mint_of_cons hz).2
+            unfold lastOf at hmax
+            exact infix_contig hS hc0inf (z := z) (y := cr.getLast?.getD z) (by rw [hz]; simp)
+              (by rw [hz]; exact List.mem_of_getLast? hlastmem) ((hcut' c hc).2.subset hxc)
+              (by omega) (by omega)
+
+theorem mem_takeLe_sorted : ∀ {l : List Sample}, SSorted l → ∀ {M : Int} {a : Sample},
+    a ∈ takeLe M l ↔ a ∈ l ∧ a.t ≤ M
+  | [], _, M, a => by simp [takeLe]
+  | b :: l, h, M, a => by
+    have hp := List.pairwise_cons.mp h
+    by_cases hb : b.t ≤ M
+    · have : takeLe M (b :: l) = b :: takeLe M l := by simp [takeLe, hb]
+      rw [this, List.mem_cons, mem_takeLe_sorted hp.2, List.mem_cons]
+      constructor
+      · rintro (rfl | ⟨h1, h2⟩)
+        · exact ⟨Or.inl rfl, hb⟩
+        · exact ⟨Or.inr h1, h2⟩
+      · rintro ⟨rfl | h1, h2⟩
+        · exact Or.inl rfl
+        · exact Or.inr ⟨h1, h2⟩
+    · have : takeLe M (b :: l) = [] := by simp [takeLe, hb]
+      rw [this]
+      constructor
+      · intro h'; simp at h'
+      · rintro ⟨h1, h2⟩
+        rcases List.mem_cons.mp h1 with rfl | h1
+        · exact absurd h2 hb
+        · have := hp.1 a h1; omega
+
+theorem takeLe_sublist (M : Int) (l : List Sample) : (takeLe M l).Sublist l := List.takeWhile_sublist _
+
 end Thanos.Dedup
